@@ -88,7 +88,7 @@ void tracef(const char* fmt, ...) {
     snprintf(line, sizeof line, "[%llu t=%.6f p%d f%d %s] %s", (unsigned long long)K.stats.steps, K.now / 1e9,
              K.cur ? K.cur->pid : -1, K.cur ? K.cur->id : -1, K.cur ? K.cur->name.c_str() : "root", buf);
     K.trace.emplace_back(line);
-    if (K.trace.size() > 4000) K.trace.pop_front();
+    if (K.trace.size() > 40000) K.trace.pop_front();
 }
 
 void unpoison_fiber(Fiber* f) {
@@ -200,6 +200,9 @@ static void dispatch() {
             std::int64_t t = INT64_MAX;
             for (auto& up : K.fibers)
                 if (up->st == Fiber::Blocked && up->deadline < t) t = up->deadline;
+            // segments/datagrams queued after a reader parked are not covered by its deadline:
+            // the next network delivery is a timer too
+            t = std::min(t, net_next_event_time());
             if (t == INT64_MAX) {
                 K.stats.deadlock = true;
                 std::string g = "deadlock: no runnable fiber and no timer;";
